@@ -20,7 +20,8 @@ def mtrl(m):
         strings += b"set%d\0" % i
     shpk_off = len(strings)
     strings += m["shpk"].encode() + b"\0"
-    while len(strings) % 4:
+    # game files pad the heap to a multiple of 4; the header carries its exact size, so an unpadded heap is as valid
+    while len(strings) % 4 and not m.get("unpadded_heap"):
         strings.append(0)
     table = m.get("table")
     flags = 0
